@@ -35,7 +35,17 @@ Record call := mkCall { cop : nat; cargs : list nat; cnums : list nat }.
 
 (* ---- pool queries ---- *)
 Definition get (p : pool) (h : nat) : option obj := nth_error p h.
-Definition live (p : pool) (h : nat) : bool := match get p h with Some o => olive o | None => false end.
+Definition flag (p : pool) (h : nat) : bool := match get p h with Some o => olive o | None => false end.
+(* an interior pointer is usable while its owner is: liveness follows the owner chain (owners are created first) *)
+Fixpoint live_fuel (f : nat) (p : pool) (h : nat) : bool :=
+  match f with
+  | O => false
+  | S f' => match get p h with
+            | Some o => olive o && match oown o with None => true | Some q => live_fuel f' p q end
+            | None => false
+            end
+  end.
+Definition live (p : pool) (h : nat) : bool := live_fuel (S h) p h.
 Definition owned (p : pool) (h : nat) : bool := match get p h with Some o => match oown o with None => true | Some _ => false end | None => false end.
 Definition has_kind (p : pool) (h : nat) (k : kind) : bool := match get p h with Some o => kind_eqb (okind o) k | None => false end.
 Definition mem (h : nat) (l : list nat) : bool := existsb (Nat.eqb h) l.
@@ -50,7 +60,7 @@ Fixpoint pair_args (sp : list aspec) (hs : list nat) : option (list (aspec * nat
   | a :: sp' => match hs with h :: hs' => option_map (cons (a, h)) (pair_args sp' hs') | [] => None end
   end.
 
-Definition exclusive (a : aspec) : bool := match a with AM _ | AX _ | AD _ => true | _ => false end.
+Definition exclusive (a : aspec) : bool := match a with AM _ | AX _ | AD _ | AI => true | _ => false end.
 Definition arg_ok (p : pool) (ah : aspec * nat) : bool :=
   let (a, h) := ah in
   live p h &&
@@ -68,8 +78,16 @@ Definition excl_ok (l : list (aspec * nat)) : bool :=
   forallb (fun ah => negb (exclusive (fst ah)) || Nat.eqb (count_occ_h (snd ah) l) 1) l.
 (* results that depend on an argument need an owned argument (the generator never builds on interior pointers) *)
 Definition deps_of (r : rspec) : list nat := match r with RF _ d => d | RB _ par => [par] | _ => [] end.
-Definition res_ok (p : pool) (r : rspec) (hs : list nat) : bool :=
-  forallb (fun i => match nth_error hs i with Some h => live p h && match r with RF _ _ => owned p h | _ => true end | None => false end) (deps_of r).
+Definition is_kill (a : aspec) : bool := match a with AX _ | AD _ => true | _ => false end.
+Definition res_ok (p : pool) (r : rspec) (l : list (aspec * nat)) (hs : list nat) : bool :=
+  forallb (fun i => match nth_error hs i with
+                    | Some h => live p h &&
+                                match r with
+                                | RF _ _ => owned p h && negb (existsb (fun ah => is_kill (fst ah) && Nat.eqb (snd ah) h) l)
+                                | _ => true
+                                end
+                    | None => false
+                    end) (deps_of r).
 
 Section WithOps.
 Variable ops : list opsig.
@@ -80,47 +98,30 @@ Definition legal (p : pool) (c : call) : bool :=
   | Some o =>
     match pair_args (op_args o) (cargs c) with
     | None => false
-    | Some l => forallb (arg_ok p) l && excl_ok l && res_ok p (op_res o) (cargs c)
+    | Some l => forallb (arg_ok p) l && excl_ok l && res_ok p (op_res o) l (cargs c)
     end
   end.
 
-(* ---- effects ---- *)
-Definition set_dead (o : obj) : obj := mkObj (okind o) false (odeps o) (oown o).
-Fixpoint upd_nth (p : pool) (h : nat) (f : obj -> obj) : pool :=
-  match p, h with
-  | [], _ => []
-  | o :: t, O => f o :: t
-  | o :: t, S h' => o :: upd_nth t h' f
-  end.
-(* interior pointers die with their owner: one left-to-right pass suffices because owners are created first *)
-Fixpoint sweep (done : pool) (rest : pool) : pool :=
-  match rest with
-  | [] => done
-  | o :: t =>
-    let o' := match oown o with
-              | Some q => if olive o && negb (live done q) then set_dead o else o
-              | None => o
-              end in
-    sweep (done ++ [o']) t
-  end.
-Definition kill (p : pool) (h : nat) : pool := sweep [] (upd_nth p h set_dead).
-(* a mutation invalidates the interior pointers handed out earlier *)
-Definition invalidate_children (p : pool) (h : nat) : pool :=
-  sweep [] (map (fun o => match oown o with Some q => if Nat.eqb q h then set_dead o else o | None => o end) p).
-Definition add_dep (p : pool) (t item : nat) : pool := upd_nth p t (fun o => mkObj (okind o) (olive o) (item :: odeps o) (oown o)).
-
-Definition apply_arg (hs : list (aspec * nat)) (p : pool) (ah : aspec * nat) : pool :=
-  let (a, h) := ah in
-  match a with
-  | AX _ | AD _ => kill p h
-  | AM _ => invalidate_children p h
-  | AI => match hs with (_, t) :: _ => add_dep p t h | [] => p end     (* the tree is the first argument of insert *)
-  | _ => p
-  end.
+(* ---- effects ---- all at once, object by object:
+   a destroyed / consumed object loses its flag; so does every interior pointer handed out by an object that is mutated;
+   the tree (first argument of the insert) now depends on the inserted item *)
+Definition is_mut (a : aspec) : bool := match a with AM _ => true | _ => false end.
+Definition is_item (a : aspec) : bool := match a with AI => true | _ => false end.
+Definition killed (l : list (aspec * nat)) (k : nat) : bool := existsb (fun ah => is_kill (fst ah) && Nat.eqb (snd ah) k) l.
+Definition mutated (l : list (aspec * nat)) (q : nat) : bool := existsb (fun ah => is_mut (fst ah) && Nat.eqb (snd ah) q) l.
+Definition items (l : list (aspec * nat)) : list nat := map snd (filter (fun ah => is_item (fst ah)) l).
+Definition tree_of (l : list (aspec * nat)) : option nat := match l with (_, t) :: _ => Some t | [] => None end.
+Definition eff_obj (l : list (aspec * nat)) (k : nat) (o : obj) : obj :=
+  let dead := killed l k || match oown o with Some q => mutated l q | None => false end in
+  let deps := if match tree_of l with Some t => Nat.eqb t k | None => false end then items l ++ odeps o else odeps o in
+  mkObj (okind o) (olive o && negb dead) deps (oown o).
+Fixpoint mapi_from (i : nat) (f : nat -> obj -> obj) (p : pool) : pool :=
+  match p with [] => [] | o :: t => f i o :: mapi_from (S i) f t end.
+Definition apply_args (l : list (aspec * nat)) (p : pool) : pool := mapi_from 0 (eff_obj l) p.
 Definition apply_res (p : pool) (r : rspec) (hs : list nat) : pool :=
   match r with
   | RF k deps => p ++ [mkObj k true (flat_map (fun i => match nth_error hs i with Some h => [h] | None => [] end) deps) None]
-  | RB k par => p ++ [mkObj k true [] (nth_error hs par)]
+  | RB k par => p ++ [mkObj k true [] (nth_error hs par)]       (* usable while the parent is: see `live` *)
   | _ => p
   end.
 Definition apply (p : pool) (c : call) : pool :=
@@ -129,7 +130,7 @@ Definition apply (p : pool) (c : call) : pool :=
   | Some o =>
     match pair_args (op_args o) (cargs c) with
     | None => p
-    | Some l => apply_res (fold_left (apply_arg l) l p) (op_res o) (cargs c)
+    | Some l => apply_res (apply_args l p) (op_res o) (cargs c)
     end
   end.
 Definition step (p : pool) (c : call) : option pool := if legal p c then Some (apply p c) else None.
@@ -139,6 +140,8 @@ Fixpoint run (p : pool) (prog : list call) : option pool :=
 (* ---- the generator: a linear congruential stream drives the choice of entry point, arguments and parameters ---- *)
 Definition lcg (r : Z) : Z := (r * 6364136223846793005 + 1442695040888963407) mod 18446744073709551616.
 Definition pick (r : Z) (n : nat) : nat := Z.to_nat ((r / 4294967296) mod Z.of_nat (Nat.max n 1)).
+(* index of a numeric / literal parameter in the boundary tables of the harness (taken modulo the table length there) *)
+Definition pick_num (r : Z) : nat := Z.to_nat ((r / 4294967296) mod 4099).
 
 Definition candidate (p : pool) (a : aspec) (h : nat) : bool :=
   live p h &&
@@ -158,7 +161,7 @@ Fixpoint choose_args (p : pool) (r : Z) (sp : list aspec) : option (list nat * l
   | AN cl :: sp' =>
     let r1 := lcg r in
     match choose_args p r1 sp' with
-    | Some (hs, ns, r2) => Some (hs, pick r1 1000003 :: ns, r2)
+    | Some (hs, ns, r2) => Some (hs, pick_num r1 :: ns, r2)
     | None => None
     end
   | a :: sp' =>
@@ -173,7 +176,7 @@ Fixpoint choose_args (p : pool) (r : Z) (sp : list aspec) : option (list nat * l
   end.
 
 (* entry 0 of the table is the literal constructor: no object argument, one parameter (which literal) *)
-Definition lit_call (r : Z) : call := mkCall 0 [] [pick r 1000003].
+Definition lit_call (r : Z) : call := mkCall 0 [] [pick_num r].
 Definition propose (p : pool) (r : Z) : call :=
   let r1 := lcg r in
   (* half of the time destroy / consume pressure is lowered by re-rolling towards constructive entry points *)
